@@ -453,6 +453,8 @@ class ResetIndex(Op):
     def gen(draw, ins):
         x = ins[0][0]
         drop = draw(st().booleans())
+        if not ins[0][1].indexed:
+            drop = True  # an undefined index must not become data
         if not drop:
             newname = x.index.name if x.index.name is not None else "index"
             existing = list(x.columns) if kind_of(x) == "frame" else [x.name]
